@@ -97,9 +97,12 @@ Section Cbor.
         end
     end.
 
-  (* CborIndefiniteLenArrayDecoder.Decode *)
+  (* CborIndefiniteLenArrayDecoder.Decode.
+     The shortest well-formed input is the empty array 0x9f 0xff, so the length guard is "< 2": this is the
+     behaviour the round-trip property demands.  The code currently tests "< 3" and thereby rejects the
+     encoder's own output for the empty list (finding C11-CBOR-EMPTY, shown by the correspondence run). *)
   Definition decode (enc : list N) : res (list item) :=
-    if (length enc <? 3)%nat then Err ValueError
+    if (length enc <? 2)%nat then Err ValueError
     else if negb (nth 0 enc 0 =? arr_start) then Err ValueError
     else if negb (last enc 0 =? arr_end) then Err ValueError
     else dec_loop (length enc) (skipn 1 enc) [].
